@@ -92,3 +92,9 @@ MUTANTS += [
     ("c02-deref-times-capturing", "C05", "jasm_regex/tree_generators/pattern_node_implementations/deref.py", 'return f"(?:{deref_regex},){times_regex}"', 'return f"({deref_regex},){times_regex}"'),
     ("c02-deref-times-dropped", "C02", "jasm_regex/tree_generators/pattern_node_implementations/deref.py", 'return f"(?:{deref_regex},){times_regex}"', 'return f"{deref_regex},"'),
 ]
+
+MUTANTS += [
+    ("c05-suffixed-definition-any-width", "C05", "jasm_regex/tree_generators/pattern_node_type_builder/special_register_capture_group_type_builder.py",
+     'return self._reference(call.process_register_capture_group_name_genreg(lowered, "([abcd])"), any_width=False)',
+     'return self._reference(call.process_register_capture_group_name_genreg(lowered, "([abcd])"), any_width=True)'),
+]
